@@ -5,5 +5,6 @@ import json, sys, os
 sys.path.insert(0, os.path.dirname(os.path.abspath(__file__)))
 from harness import core
 fp = {f'C{i:02d}': core.property_fingerprint(f'C{i:02d}') for i in range(1, 21)}
+fp['_files'] = core.repo_file_hashes()
 core.FINGERPRINTS.write_text(json.dumps(fp, indent=1))
-print(fp)
+print({k: v for k, v in fp.items() if k != '_files'})
